@@ -14,12 +14,14 @@ namespace ParamVerif.Json
 inductive Err where
   | valueError | typeError | keyError | attributeError
   | unserializable          -- serializer.UnserializableException
+  | unsafeSer               -- serializer.UnsafeserializableException
   | unsupported             -- outside the model
   deriving DecidableEq, Repr
 
 def Err.name : Err → String
   | .valueError => "ValueError" | .typeError => "TypeError" | .keyError => "KeyError"
   | .attributeError => "AttributeError" | .unserializable => "UnserializableException"
+  | .unsafeSer => "UnsafeserializableException"
   | .unsupported => "unsupported"
 
 /-- dictionary keys that `json.dumps` accepts (float keys are outside the model) -/
